@@ -114,9 +114,11 @@ def build_records(quick: bool, seed: int, repo: str) -> list[dict[str, Any]]:
     rt_ids = [i for i in ids if len(i) in (1, 2, 46, 47, 63, 64, 65, 70, 200)][::(9 if quick else 2)] + ['fn', 'fn/sub', 'a' * 64]
     for sname, (pst, dst, prefix) in storages().items():
         for i in rt_ids:
-            for rec in record_variants:
+            for rec, drs in [(r_, d_) for r_ in record_variants for d_ in (False, True)]:
                 base = {'metadata': {'name': 'o', 'annotations': {'user': 'u', 'other.example.com/kopf-managed': 'yes', 'other.example.com/fn': '{"retries":7}'}},
                         'status': {'user': 1}}
+                if drs:      # a ReplicaSet owned by a Deployment: the convention marks the ids ("-ofDRS") so that they do not collide
+                    base['kind'] = 'ReplicaSet'; base['metadata']['ownerReferences'] = [{'kind': 'Deployment', 'name': 'd'}]
                 B = bodies.Body(copy.deepcopy(base))
                 p0 = patches.Patch(); pst.store(key='neighbour', record=record_variants[1], body=B, patch=p0); pst.flush()
                 body1 = merge_patch(base, json.loads(json.dumps(dict(p0))))
@@ -124,7 +126,7 @@ def build_records(quick: bool, seed: int, repo: str) -> list[dict[str, Any]]:
                 p = patches.Patch(); pst.store(key=i, record=rec, body=B1, patch=p); pst.flush()
                 body2 = merge_patch(body1, json.loads(json.dumps(dict(p))))
                 B2 = bodies.Body(copy.deepcopy(body2))
-                own_keys = set(kopf.AnnotationsProgressStorage(prefix=prefix).make_keys(i)) if prefix else set()
+                own_keys = set(kopf.AnnotationsProgressStorage(prefix=prefix).make_keys(i, body=bodies.Body(base))) if prefix else set()
 
                 def others(b):
                     o = copy.deepcopy(b)
@@ -139,13 +141,13 @@ def build_records(quick: bool, seed: int, repo: str) -> list[dict[str, Any]]:
                         if isinstance(d, dict): d.pop(field[-1], None)
                     return {'ann': o.get('metadata', {}).get('annotations', {}), 'status_user': o.get('status', {}).get('user'),
                             'neighbour': pst.fetch(key='neighbour', body=bodies.Body(b))}
-                recs.append({'kind': 'roundtrip', 'storage': sname, 'id': cps(i), 'record': enc(dict(rec)), 'fetched': enc(pst.fetch(key=i, body=B2)),
+                recs.append({'kind': 'roundtrip', 'storage': sname + ('+drs' if drs else ''), 'id': cps(i), 'record': enc(dict(rec)), 'fetched': enc(pst.fetch(key=i, body=B2)),
                              'others_before': enc(others(body1)), 'others_after': enc(others(body2))})
                 pp = patches.Patch(); pst.purge(key=i, body=B2, patch=pp); pst.flush()
                 body3 = merge_patch(body2, json.loads(json.dumps(dict(pp))))
                 B3 = bodies.Body(copy.deepcopy(body3))
                 leftover = len([k for k in body3.get('metadata', {}).get('annotations', {}) if k in own_keys])
-                recs.append({'kind': 'purge', 'storage': sname, 'id': cps(i), 'fetched_after': enc(pst.fetch(key=i, body=B3)),
+                recs.append({'kind': 'purge', 'storage': sname + ('+drs' if drs else ''), 'id': cps(i), 'fetched_after': enc(pst.fetch(key=i, body=B3)),
                              'others_before': enc(others(body2)), 'others_after': enc(others(body3)), 'leftover': leftover})
     return recs
 
